@@ -345,7 +345,7 @@ func main() {
 			sol.log = f
 		}
 		r := w.runPath(sol, harnesses[0], pre)
-		b, _ := json.MarshalIndent(map[string]any{"status": r.Status, "why": r.Why, "decisions": r.Decisions, "asserts": r.Asserts, "reached": r.Reached, "alts": r.NewAlts}, "", " ")
+		b, _ := json.MarshalIndent(map[string]any{"status": r.Status, "why": r.Why, "decisions": r.Decisions, "asserts": r.Asserts, "reached": r.Reached, "alts": r.NewAlts, "recovered": r.Recovered}, "", " ")
 		fmt.Println(string(b))
 		return
 	}
